@@ -1771,6 +1771,7 @@ private:
    // ideally these four attributes would be local variables, however the precision boosting loop
    // wraps the solve in a way that it is complicated to declare these variables locally.
    int _lastStallPrecBoosts; // number of previous stalling precision boosts
+   volatile bool* _interrupt; // interrupt flag of the exact solve that is running (nullptr otherwise); read by its floating-point solves
    bool _factorSolNewBasisPrecBoost; // false if the current basis has already been factorized (no new iterations have been done)
    int _nextRatrecPrecBoost; // the iteration during or after which rational reconstruction can be performed
    // buffer storing the number of iterations before a given precision boost
